@@ -63,3 +63,28 @@ MUTANTS += [
    '            ret &= self._verify_one_file(os.path.join(dirpath, f),\n                                         fpath, fe)',
    '            ret = ret and self._verify_one_file(os.path.join(dirpath, f),\n                                         fpath, fe)')]),
 ]
+
+MUTANTS += [
+ # ---- C02
+ dict(id='c02-verify-default-off', props=['C02'], edits=[(RL,
+   'def load_manifests_for_path(self, path, recursive=False, verify=True):',
+   'def load_manifests_for_path(self, path, recursive=False, verify=False):')]),
+ dict(id='c02-verify-inverted', props=['C02'], edits=[(RL,
+   '                        if not verify:\n                            e = None',
+   '                        if verify:\n                            e = None')]),
+ dict(id='c02-skip-compressed', props=['C02'], edits=[(RL,
+   '        if verify_entry is not None:\n            ret, diff = verify_path(path, verify_entry)',
+   "        if verify_entry is not None and not relpath.endswith(('.gz', '.xz')):\n            ret, diff = verify_path(path, verify_entry)")]),
+ dict(id='c02-ignore-ret', props=['C02'], edits=[(RL,
+   '            if not ret:\n                raise ManifestMismatch(relpath, verify_entry, diff)',
+   '            if not ret and False:\n                raise ManifestMismatch(relpath, verify_entry, diff)')]),
+ dict(id='c02-dist-lookup-unverified', props=['C02'], edits=[(RL,
+   "        self.load_manifests_for_path(relpath+'/')\n",
+   "        self.load_manifests_for_path(relpath+'/', verify=False)\n")]),
+ dict(id='c02-deep-unverified', props=['C02'], edits=[(RL,
+   '                        if not verify:\n                            e = None',
+   "                        if not verify or mpath.count('/') >= 3:\n                            e = None")]),
+ dict(id='c02-size-only', props=['C02'], edits=[(RL,
+   '            ret, diff = verify_path(path, verify_entry)\n            if not ret:',
+   "            ret, diff = verify_path(path, verify_entry)\n            if not ret and diff[0][0] in ('__size__', '__exists__', '__type__'):")]),
+]
